@@ -21,6 +21,7 @@ def tlc_jobs(ctx, out):
                                   "phases 1-2: tokenize_file's passes (Level I) differ from 5.1.1.2 (Level A)", workers=2, heap="2g"),
         lambda: c11.control(ctx, "LitPhase", "LitPhase.cfg", "crlf-double", MaxLen=4),
         lambda: c11.control(ctx, "LitPhase", "LitPhase.cfg", "no-bom", MaxLen=2),
+        lambda: c11.control(ctx, "LitPhase", "LitPhase.cfg", "chunk3", MaxLen=4),
     ]
 
 
@@ -290,6 +291,110 @@ XFORMS = {"crlf": to_crlf, "cr": to_cr, "bom": lambda t: BOM + t, "bom+crlf": la
           "splice3x2": splice_xform(3, times=2), "bom+splice0": lambda t: BOM + splice_xform(0, period=3)(t)}
 
 
+# ---- long files: every end-of-line indicator in turn across a block edge of the reader (Literals.tla StraddlePads)
+EDGES = (4096, 8192)
+ENCODE = {"crlf": to_crlf, "cr": to_cr, "lf": lambda t: t}
+
+
+def eol_offsets(t):
+    """0-based offsets of the first byte of every end-of-line indicator (= Literals.tla EolOffsets)"""
+    return [i for i in range(len(t)) if t[i] == 13 or (t[i] == 10 and (i == 0 or t[i - 1] != 13))]
+
+
+def long_file(body, enc, pad):
+    """a one-line comment of the given total pad length in front of the body, then the line-end encoding"""
+    return ENCODE[enc](b"/* " + b"x" * pad + b" */\n" + body)
+
+
+def run_long_files(ctx, tree, good):
+    """the same small program, LF form, against its CRLF / CR forms padded so that each line end (plain ones and
+    the ones of backslash-newline splices inside literals, identifiers and numbers) straddles offset 4096 / 8192;
+    the output, including a final __LINE__, must not depend on it"""
+    q = ctx.quick
+    pick, seen = [], set()
+    for c in good:                                   # one short case per kind and prefix
+        k = (c["kind"], c.get("pfx"), c.get("base"))
+        if k not in seen and len(c["src"]) < 40:
+            seen.add(k)
+            pick.append(c)
+    pick = pick[:9]
+    head = c11.PRELUDE + b"".join(c11.render(i, c) for i, c in enumerate(pick)) + b"int main(void) {\n" + \
+        b"".join(b" f%d();\n" % i for i in range(len(pick)))
+    tail = b" printf(\"L %d\\n\", __LINE__);\n return 0; }\n"
+    texts = {"plain": head, "splice": splice_xform(ctx.seed % 7, period=7)(head)}
+    if not q:
+        for k in (1, 3, 5):                          # three more splice phases (every other line end of each)
+            texts["splice+%d" % k] = splice_xform((ctx.seed + k) % 7, period=7)(head)
+    work = []
+    for tname, h in sorted(texts.items()):
+        body = h + tail
+        line = 2 + h.count(b"\n")                  # the pad comment is line 1
+        exp = "\n".join(c11.expect(i, c) for i, c in enumerate(pick)) + "\nL %d" % line
+        for enc in ("crlf", "cr", "lf"):
+            pre = len(ENCODE[enc](b"/*  */\n"))
+            offs = eol_offsets(ENCODE[enc](body))
+            stride = 1 if (tname == "plain" and enc == "crlf") else (6 if enc == "crlf" else 29)
+            if not q and enc == "crlf":
+                stride = 2 if "+" in tname else 1
+            offs = vt.subsample(offs, ctx.seed, stride)
+            for edge in EDGES:
+                for o in offs:
+                    for d in ((0,) if (q or tname != "plain") else (-1, 0, 1)):
+                        pad = edge - 1 - o - pre + d
+                        if pad >= 0:
+                            work.append((tname, enc, edge, pad, body, exp))
+    d = ctx.tmp("longfile")
+
+    def one(t):
+        j, (tname, enc, edge, pad, body, exp) = t
+        f = "%s/l%d.c" % (d, j)
+        open(f, "wb").write(long_file(body, enc, pad))
+        exe = f[:-2] + ".exe"
+        p = vt.run_limited([tree + "/chibicc", "-I" + tree + "/include", "-o", exe, f], timeout=60, mem_gb=2, errors="replace")
+        if p.returncode != 0:
+            got, err = None, p.stderr[-300:]
+        else:
+            r = vt.run_limited([exe], timeout=20, mem_gb=1, errors="replace")
+            got, err = r.stdout.strip(), "rc=%s" % r.returncode
+        if got != exp:                               # tie-break: what does gcc print for this very file?
+            g = vt.sh(["gcc", "-w", "-std=gnu11", "-o", exe, f], timeout=60)
+            gout = vt.run_limited([exe], timeout=20, mem_gb=1, errors="replace").stdout.strip() if g.returncode == 0 else None
+        else:
+            gout = exp
+        for x in (f, exe):
+            try:
+                os.unlink(x)
+            except OSError:
+                pass
+        return tname, enc, edge, pad, exp, got, err, gout
+    for tname, enc, edge, pad, exp, got, err, gout in vt.pmap(one, list(enumerate(work)), workers=8):
+        ctx.note_case("longfile:%s:%s:%d:%d" % (tname, enc, edge, pad))
+        if got == exp:
+            continue
+        if gout != exp:
+            ctx.oracle_disagreements += 1
+            continue
+        what = "rejected" if got is None else "line-number" if got.splitlines()[:-1] == exp.splitlines()[:-1] else "value"
+        ctx.report("phase:longfile:%s:%s" % (enc, what),
+                   "%s text, %s line ends, pad %d (a line end straddles offset %d): expected %s, got %s %s" % (
+                       tname, enc, pad, edge, exp.splitlines()[-1], (got or "").splitlines()[-1:] , err),
+                   case=dict(kind="longfile", text=tname, enc=enc, edge=edge, pad=pad, body=list(texts[tname] + tail), expected=exp))
+    ctx.cov["traces_validated_against_impl"] += len(work)
+    ctx.cov["long_file_variants"] = len(work)
+
+
+def replay_long(ctx, tree, c):
+    d = ctx.tmp("longfile")
+    f = d + "/l.c"
+    open(f, "wb").write(long_file(bytes(c["body"]), c["enc"], c["pad"]))
+    p = vt.run_limited([tree + "/chibicc", "-I" + tree + "/include", "-o", d + "/l.exe", f], timeout=60, mem_gb=2, errors="replace")
+    got = vt.run_limited([d + "/l.exe"], timeout=20, errors="replace").stdout.strip() if p.returncode == 0 else None
+    ctx.note_case("longfile-replay")
+    if got != c["expected"]:
+        ctx.report("phase:longfile:%s:%s" % (c["enc"], "rejected" if got is None else "differs"),
+                   "expected %s got %s %s" % (c["expected"][-40:], (got or "")[-40:], p.stderr[-200:]), case=c)
+
+
 def run_phases(ctx, tree, sel_i, sel_s):
     q = ctx.quick
     # a seed-selected set of the literal programs, re-encoded; only programs that the tree gets right in canonical form
@@ -306,5 +411,6 @@ def run_phases(ctx, tree, sel_i, sel_s):
     def one(name):
         c11.compare(ctx, tree, good, "phase-" + name, first=300000, xform=xf[name], xname="phase:" + name)
     vt.pmap(one, sorted(xf), workers=4)
+    run_long_files(ctx, tree, good)
     ctx.cov["phase_programs"] = len(good)
     ctx.cov["phase_transformations"] = sorted(xf)
